@@ -46,8 +46,18 @@ class PrepareAssumed(Contract):
         return [("raises", prepared_raises(c.attr_spec, c.instance, c.eng.to_val(c.pre, c.value)))]
 
 
+class StackDepthAssumed(Contract):
+    qual = "spec_classes.utils.stackdepth:get_spec_classes_depth"
+    assumed = True
+    reason = "inspects interpreter frames (sys._getframe) to choose a warning stacklevel; returns an int, no effect"
+
+    def post(self, c):
+        return [("int", is_int(c.res))]
+
+
 register(CheckTypeAssumed)
 register(PrepareAssumed)
+register(StackDepthAssumed)
 
 
 def depth_hook(eng, st, pos, kw, fx):
@@ -239,3 +249,215 @@ class SPDelete(SPBase):
         fdel = fld(st, s, "fdel")
         return [("unchanged", unchanged_inst(st, c.post, inst)),
                 ("why", z3.And(z3.Not(is_none(fdel)), APP_RAISES[1](fdel, inst)))]
+
+
+# ------------------------------------------------------------------------------------------------
+# classproperty: the same protocol, one slot per class (or per subclass when cache_per_subclass)
+# ------------------------------------------------------------------------------------------------
+def cm_call_hook(eng, st, pos, kw, fx):
+    """calling a bound classmethod object: the wrapped function applied to (class, *args)   (A-CB)"""
+    f = pos[0]
+    return eng.models.callback(eng, st, f, list(pos[1:]), kw)
+
+
+def descr_get_attr(eng, st, v, fx):
+    from pyvc.models import PMeth
+    return [Res("ok", st, PMeth(v, "__get__"))]
+
+
+def descr_get_call(eng, st, recv, pos, kw, fx):
+    """classmethod.__get__(obj, objtype): bind to objtype, or to type(obj) when objtype is None"""
+    if not is_val(recv):
+        return None
+    obj, typ = (list(pos) + [NONE])[:2]
+    obj, typ = eng.to_val(st, obj), eng.to_val(st, typ)
+    cls = z3.If(is_none(typ), vcls(eng.type_of(st, obj)), typ)
+    return [Res("ok", st, PPartial(PBuiltin("c12.classmethod_call"), [recv, cls], {}))]
+
+
+_install_sp = install_hooks
+
+
+def install_hooks(models):
+    _install_sp(models)
+    models.builtin_hooks["c12.classmethod_call"] = cm_call_hook
+    models.attr_hooks["__get__"] = descr_get_attr
+    models.method_hooks["__get__"] = descr_get_call
+
+
+def cache_of(st, s):
+    return a_of(fld(st, s, "_cache"))
+
+
+def cps(c, st, s):
+    """cache_per_subclass option = attrs.get('cache_per_subclass', False)"""
+    A = a_of(fld(st, s, "attrs"))
+    k = kn(STR.val("cache_per_subclass"))
+    v = z3.If(z3.Select(st.get("dhas", A), k), z3.Select(st.get("dval", A), k), vbool(z3.BoolVal(False)))
+    return c.eng.truthy(st, v)
+
+
+def ckey(c, st, s, cls):
+    return kn(z3.If(cps(c, st, s), cls, NONE))
+
+
+class CPBase(Contract):
+    recv = CPC
+
+    def setup(self, c):
+        st = c.pre
+        s = c.self
+        for n in ("overridable", "cache", "allow_attribute_error"):
+            st.assume(is_bool(fld(st, s, n)))
+        for n in ("_fget", "_fset", "_fdel"):
+            f = fld(st, s, n)
+            st.assume(z3.Or(is_none(f), z3.And(is_ref(f), st.get("cls_of", a_of(f)) == CLS.cid("classmethod"),
+                                               a_of(f) >= 1000, a_of(f) < st.alloc)))
+        for n in ("attrs", "_cache"):
+            d = fld(st, s, n)
+            st.assume(is_ref(d), st.get("cls_of", a_of(d)) == CLS.cid("dict"), a_of(d) >= 1000, a_of(d) < st.alloc)
+        st.assume(cache_of(st, s) != a_of(fld(st, s, "attrs")), cache_of(st, s) != a_of(s),
+                  z3.Not(is_absent(fld(st, s, "warn_on_override"))))
+        self.typing(c)
+
+    def typing(self, c):
+        pass
+
+    def modifies(self, c):
+        return [cache_of(c.pre, c.self)]
+
+    def cache_arrays(self, st, s):
+        C = cache_of(st, s)
+        return st.get("dhas", C), st.get("dval", C)
+
+    def only_key(self, c, k):
+        has0, dv0 = self.cache_arrays(c.pre, c.self)
+        has1, dv1 = self.cache_arrays(c.post, c.self)
+        q = z3.Const("q!ok", Val)
+        return z3.ForAll([q], z3.Implies(q != k, z3.And(z3.Select(has1, q) == z3.Select(has0, q),
+                                                        z3.Select(dv1, q) == z3.Select(dv0, q))))
+
+    def cache_same(self, c):
+        has0, dv0 = self.cache_arrays(c.pre, c.self)
+        has1, dv1 = self.cache_arrays(c.post, c.self)
+        return z3.And(has1 == has0, dv1 == dv0)
+
+
+@register
+class CPGet(CPBase):
+    """read through a class or an instance: the value stored for the class (override or cache) if any -
+    getter not called; else the getter's result for that class, cached when caching is on"""
+    qual = CPC + ".__get__"
+    raises = {"AttributeError": "exc_attr", "NestedAttributeError": "exc_nested", "*": "exc_cb"}
+
+    def typing(self, c):
+        st = c.pre
+        st.assume(z3.Or(is_none(c.objtype), is_cls(c.objtype)))
+        st.assume(z3.Or(is_none(c.obj), z3.And(is_ref(c.obj), a_of(c.obj) >= 1000)))
+
+    def parts(self, c):
+        st, s = c.pre, c.self
+        typ = c.eng.to_val(st, c.objtype)
+        k = ckey(c, st, s, typ)
+        has, dv = self.cache_arrays(st, s)
+        fget = fld(st, s, "_fget")
+        cls = z3.If(is_none(typ), vcls(c.eng.type_of(st, c.obj)), typ)
+        return typ, k, has, dv, fget, cls
+
+    def post(self, c):
+        st, s = c.pre, c.self
+        typ, k, has, dv, fget, cls = self.parts(c)
+        stored = z3.Select(has, k)
+        n = ncalls(c, fget)
+        r = APP[1](fget, cls)
+        has1, dv1 = self.cache_arrays(c.post, s)
+        caches = z3.And(b_of(fld(st, s, "cache")), c.eng.truthy(st, typ))
+        return [("stored", z3.Implies(stored, z3.And(c.res == z3.Select(dv, k), self.cache_same(c), z3.BoolVal(n == 0)))),
+                ("computed", z3.Implies(z3.Not(stored), z3.And(
+                    z3.Not(is_none(fget)), z3.BoolVal(n == 1), c.res == r, self.only_key(c, k),
+                    z3.Select(has1, k) == caches, z3.Implies(caches, z3.Select(dv1, k) == r))))]
+
+    def exc_attr(self, c):
+        st, s = c.pre, c.self
+        typ, k, has, dv, fget, cls = self.parts(c)
+        return [("unchanged", self.cache_same(c)),
+                ("why", z3.And(z3.Not(z3.Select(has, k)), z3.Or(is_none(fget), z3.And(
+                    APP_RAISES[1](fget, cls), b_of(fld(st, s, "allow_attribute_error"))))))]
+
+    def exc_nested(self, c):
+        st, s = c.pre, c.self
+        typ, k, has, dv, fget, cls = self.parts(c)
+        return [("unchanged", self.cache_same(c)),
+                ("why", z3.And(z3.Not(z3.Select(has, k)), APP_RAISES[1](fget, cls),
+                               z3.Not(b_of(fld(st, s, "allow_attribute_error")))))]
+
+    def exc_cb(self, c):
+        st, s = c.pre, c.self
+        typ, k, has, dv, fget, cls = self.parts(c)
+        return [("unchanged", self.cache_same(c)), ("why", z3.And(z3.Not(z3.Select(has, k)), APP_RAISES[1](fget, cls)))]
+
+
+@register
+class CPSet(CPBase):
+    """assignment through an instance: with a setter it is called with (class, value) and the library
+    writes nothing; without one the value becomes the class's override when overridable, else AttributeError"""
+    qual = CPC + ".__set__"
+    raises = {"AttributeError": "exc_attr", "*": "exc_cb"}
+
+    def typing(self, c):
+        st = c.pre
+        st.assume(z3.Or(is_cls(c.obj), z3.And(is_ref(c.obj), a_of(c.obj) >= 1000)))
+
+    def cls(self, c):
+        return z3.If(is_cls(c.obj), c.obj, vcls(c.eng.type_of(c.pre, c.obj)))
+
+    def post(self, c):
+        st, s = c.pre, c.self
+        cl = self.cls(c)
+        k = ckey(c, st, s, cl)
+        fset = fld(st, s, "_fset")
+        v = c.eng.to_val(c.post, c.value)
+        has1, dv1 = self.cache_arrays(c.post, s)
+        n = ncalls(c, fset)
+        return [("override", z3.Implies(is_none(fset), z3.And(b_of(fld(st, s, "overridable")), self.only_key(c, k),
+                                                              z3.Select(has1, k), z3.Select(dv1, k) == v, z3.BoolVal(n == 0)))),
+                ("setter", z3.Implies(z3.Not(is_none(fset)), z3.And(self.cache_same(c), z3.BoolVal(n == 1))))]
+
+    def exc_attr(self, c):
+        st, s = c.pre, c.self
+        fset = fld(st, s, "_fset")
+        return [("unchanged", self.cache_same(c)),
+                ("why", z3.Or(z3.And(is_none(fset), z3.Not(b_of(fld(st, s, "overridable")))), z3.Not(is_none(fset))))]
+
+    def exc_cb(self, c):
+        return [("unchanged", self.cache_same(c)), ("why", z3.Not(is_none(fld(c.pre, c.self, "_fset"))))]
+
+
+@register
+class CPDelete(CPBase):
+    """deletion through an instance: removes the class's stored value; AttributeError (nothing changed) if none"""
+    qual = CPC + ".__delete__"
+    raises = {"AttributeError": "exc_attr", "*": "exc_cb"}
+    typing = CPSet.typing
+    cls = CPSet.cls
+
+    def post(self, c):
+        st, s = c.pre, c.self
+        k = ckey(c, st, s, self.cls(c))
+        fdel = fld(st, s, "_fdel")
+        has0, dv0 = self.cache_arrays(st, s)
+        has1, dv1 = self.cache_arrays(c.post, s)
+        n = ncalls(c, fdel)
+        return [("remove", z3.Implies(is_none(fdel), z3.And(z3.Select(has0, k), z3.Not(z3.Select(has1, k)), self.only_key(c, k)))),
+                ("deleter", z3.Implies(z3.Not(is_none(fdel)), z3.And(self.cache_same(c), z3.BoolVal(n == 1))))]
+
+    def exc_attr(self, c):
+        st, s = c.pre, c.self
+        k = ckey(c, st, s, self.cls(c))
+        fdel = fld(st, s, "_fdel")
+        has0, dv0 = self.cache_arrays(st, s)
+        return [("unchanged", self.cache_same(c)),
+                ("why", z3.Or(z3.And(is_none(fdel), z3.Not(z3.Select(has0, k))), z3.Not(is_none(fdel))))]
+
+    def exc_cb(self, c):
+        return [("unchanged", self.cache_same(c)), ("why", z3.Not(is_none(fld(c.pre, c.self, "_fdel"))))]
